@@ -1,7 +1,7 @@
 package main
 
 import (
-		"context"
+	"context"
 	"fmt"
 	"os"
 	"os/exec"
@@ -12,15 +12,15 @@ import (
 )
 
 type Verdict struct {
-	Obl     *Obligation
-	Fn      *FuncResult
-	Status  string // unsat, sat, unknown, timeout, error
-	Solver  string
-	Time    float64
-	Model   map[string]string
-	Output  string
-	SMTFile string
-	Size    int
+	Obl       *Obligation
+	Fn        *FuncResult
+	Status    string // unsat, sat, unknown, timeout, error
+	Solver    string
+	Time      float64
+	Model     map[string]string
+	Output    string
+	SMTFile   string
+	Size      int
 	Candidate bool // model from the quantifier-free relaxation: only a candidate until replayed
 }
 
